@@ -883,4 +883,215 @@ theorem invG_init (B : Prop) : InvG B init :=
   ⟨⟨fun hf => (by cases hf), fun _ => Or.inl (by decide), rfl⟩,
    fun _ x hx => by rcases hx with hx | hx <;> cases hx⟩
 
+/-! ### the declared number of return values is irrelevant -/
+
+/-- the same object but declared with `k` return values -/
+def setK (k : Nat) (s : State) : State := { s with k := k }
+
+@[simp] theorem keep_setK (k : Nat) (s : State) (xs : List Rat) : keep (setK k s) xs = keep s xs := rfl
+@[simp] theorem rangeMin_setK (k : Nat) (s : State) : rangeMin (setK k s) = rangeMin s := rfl
+@[simp] theorem rangeMax_setK (k : Nat) (s : State) : rangeMax (setK k s) = rangeMax s := rfl
+@[simp] theorem extendKept_setK (k : Nat) (s : State) (a b : Rat) (p q : Nat) :
+    extendKept (setK k s) a b p q = extendKept s a b p q := rfl
+
+theorem interpolate_setK (k : Nat) (s : State) (xs : List Rat) :
+    interpolate (setK k s) xs = (interpolate s xs).map (setK k) := by
+  unfold interpolate; split_ifs <;> rfl
+
+theorem extendTable_setK (k : Nat) (s : State) (a b : Rat) (p q : Nat) :
+    extendTable (setK k s) a b p q = (setK k (extendTable s a b p q).1, (extendTable s a b p q).2) := by
+  unfold extendTable
+  simp only [interpolate_setK, keep_setK, extendKept_setK]
+  have h1 : (setK k s).hasTable = s.hasTable := rfl
+  rw [h1]
+  split_ifs with ht
+  · cases interpolate s (keep s (linspace a b (p + q))) <;> rfl
+  · cases hi : interpolate s (extendKept s a b p q) with
+    | none => rfl
+    | some s' =>
+      simp only [Option.map_some]
+      have : (setK k s').adaptive = s'.adaptive := rfl
+      rw [this]
+      split_ifs <;> rfl
+
+theorem adaptiveUpdate_setK (k : Nat) (s : State) :
+    adaptiveUpdate (setK k s) = (setK k (adaptiveUpdate s).1, (adaptiveUpdate s).2) := by
+  unfold adaptiveUpdate
+  exact extendTable_setK k { s with count := 0, pending := [] } _ _ _ _
+
+theorem schedule_setK (k : Nat) (s : State) (xs : List Rat) :
+    schedule (setK k s) xs = (setK k (schedule s xs).1, (schedule s xs).2) := by
+  unfold schedule
+  rw [keep_setK]
+  generalize uniq (keep s xs) = u
+  by_cases h1 : s.adaptive = false
+  · rw [if_pos (show (setK k s).adaptive = false from h1), if_pos h1]
+  · rw [if_neg (show ¬ (setK k s).adaptive = false from h1), if_neg h1]
+    by_cases h2 : u.isEmpty = true
+    · rw [if_pos h2, if_pos h2]
+    · rw [if_neg h2, if_neg h2]
+      by_cases h3 : s.threshold ≤ s.count + u.length
+      · rw [if_pos (show (setK k s).threshold ≤ (setK k s).count + u.length from h3), if_pos h3]
+        exact adaptiveUpdate_setK k { s with count := s.count + u.length, pending := s.pending ++ u }
+      · rw [if_neg (show ¬ (setK k s).threshold ≤ (setK k s).count + u.length from h3), if_neg h3]
+        rfl
+
+theorem sideLower_setK (k : Nat) (s : State) (xs : List Rat) :
+    sideLower (setK k s) xs = (setK k (sideLower s xs).1, (sideLower s xs).2) := by
+  unfold sideLower
+  have h1 : (setK k s).lo = s.lo := rfl
+  rw [h1]
+  split_ifs
+  · rfl
+  · cases s.lo
+    · exact schedule_setK k s xs
+    · rfl
+    · rfl
+    · rfl
+
+theorem sideUpper_setK (k : Nat) (s : State) (xs : List Rat) :
+    sideUpper (setK k s) xs = (setK k (sideUpper s xs).1, (sideUpper s xs).2) := by
+  unfold sideUpper
+  have h1 : (setK k s).hi = s.hi := rfl
+  rw [h1]
+  split_ifs
+  · rfl
+  · cases s.hi
+    · exact schedule_setK k s xs
+    · rfl
+    · rfl
+    · rfl
+
+theorem evalRun_setK (k : Nat) (s : State) (u : Bool) (xs : List Rat) :
+    evalRun (setK k s) u xs =
+      ⟨setK k (evalRun s u xs).st, (evalRun s u xs).err, (evalRun s u xs).tag⟩ := by
+  unfold evalRun
+  have e1 : outPts (setK k s) xs = outPts s xs := rfl
+  have e2 : lowPts (setK k s) xs = lowPts s xs := rfl
+  have e3 : upPts (setK k s) xs = upPts s xs := rfl
+  rw [e1, e2, e3]
+  by_cases h0 : u = false ∨ s.hasTable = false
+  · rw [if_pos (show u = false ∨ (setK k s).hasTable = false from h0), if_pos h0, schedule_setK]
+  · rw [if_neg (show ¬ (u = false ∨ (setK k s).hasTable = false) from h0), if_neg h0]
+    by_cases h1 : (outPts s xs).isEmpty = true
+    · rw [if_pos h1, if_pos h1]; rfl
+    · rw [if_neg h1, if_neg h1]
+      by_cases h2 : s.lo = .error ∧ s.hi = .error
+      · rw [if_pos (show (setK k s).lo = .error ∧ (setK k s).hi = .error from h2), if_pos h2]
+      · rw [if_neg (show ¬ ((setK k s).lo = .error ∧ (setK k s).hi = .error) from h2), if_neg h2]
+        by_cases h3 : s.lo = .none ∧ s.hi = .none
+        · rw [if_pos (show (setK k s).lo = .none ∧ (setK k s).hi = .none from h3), if_pos h3,
+            schedule_setK]
+          rfl
+        · rw [if_neg (show ¬ ((setK k s).lo = .none ∧ (setK k s).hi = .none) from h3), if_neg h3,
+            sideLower_setK]
+          dsimp only
+          cases hl : (sideLower s (lowPts s xs)).2 with
+          | some e => rfl
+          | none =>
+            dsimp only
+            rw [sideUpper_setK]
+            rfl
+
+theorem derivDirect_setK (k : Nat) (s : State) (order : Nat) (xd : List (Rat × Rat)) :
+    derivDirect (setK k s) order xd = (setK k (derivDirect s order xd).1, (derivDirect s order xd).2) := by
+  unfold derivDirect
+  by_cases h1 : 2 < order
+  · rw [if_pos h1, if_pos h1]
+  · rw [if_neg h1, if_neg h1]
+    by_cases h2 : order = 0
+    · rw [if_pos h2, if_pos h2, schedule_setK]
+      generalize schedule s (List.map _ xd) = r
+      rcases r with ⟨s1, _ | e⟩ <;> rfl
+    · rw [if_neg h2, if_neg h2, schedule_setK]
+      generalize schedule s (posArray order xd) = r
+      rcases r with ⟨s1, _ | e⟩
+      · dsimp only
+        rw [schedule_setK]
+        generalize schedule s1 (posArray order xd) = r2
+        rcases r2 with ⟨s2, _ | e⟩ <;> rfl
+      · rfl
+
+theorem derivRun_setK (k : Nat) (s : State) (u : Bool) (order : Nat) (xd : List (Rat × Rat)) :
+    derivRun (setK k s) u order xd = (setK k (derivRun s u order xd).1, (derivRun s u order xd).2) := by
+  unfold derivRun
+  have e1 : derivOut (setK k s) xd = derivOut s xd := rfl
+  rw [e1]
+  by_cases h0 : u = false ∨ s.hasTable = false ∨ 2 < order
+  · rw [if_pos (show u = false ∨ (setK k s).hasTable = false ∨ 2 < order from h0), if_pos h0]
+    exact derivDirect_setK k s order xd
+  · rw [if_neg (show ¬ (u = false ∨ (setK k s).hasTable = false ∨ 2 < order) from h0), if_neg h0]
+    by_cases h1 : (derivOut s xd).isEmpty = true
+    · rw [if_pos h1, if_pos h1]; rfl
+    · rw [if_neg h1, if_neg h1]
+      by_cases h2 : order = 0
+      · rw [if_pos h2, if_pos h2]
+        simp only [evalRun_setK]
+        cases (evalRun s true (List.map (fun x => x.1) (derivOut s xd))).err <;> rfl
+      · rw [if_neg h2, if_neg h2]
+        simp only [evalRun_setK]
+        cases (evalRun s true (posArray order (derivOut s xd))).err with
+        | some e => rfl
+        | none =>
+          dsimp only
+          cases (evalRun (evalRun s true (posArray order (derivOut s xd))).st true
+              (posArray order (derivOut s xd))).err <;> rfl
+
+/-- the declared number of return values `k` is never read by any operation: running an op on the
+same object declared with another `k` gives the same output and the same new state (up to `k`). -/
+theorem step_setK (k : Nat) (s : State) (op : Op) (hop : ∀ k' a t n, op ≠ .new k' a t n) :
+    step (setK k s) op = (setK k (step s op).1, (step s op).2) := by
+  cases op with
+  | new k' a t n => exact absurd rfl (hop k' a t n)
+  | setBad xs => rfl
+  | table a b n =>
+    show ofInterp (setK k s) (interpolate (setK k s) (keep s (linspace a b n))) = _
+    rw [interpolate_setK]
+    show _ = (setK k (ofInterp s (interpolate s (keep s (linspace a b n)))).1,
+              (ofInterp s (interpolate s (keep s (linspace a b n)))).2)
+    cases interpolate s (keep s (linspace a b n)) <;> rfl
+  | tablevals xs =>
+    show ofInterp (setK k s) (interpolate (setK k s) (keep s xs)) = _
+    rw [interpolate_setK]
+    show _ = (setK k (ofInterp s (interpolate s (keep s xs))).1,
+              (ofInterp s (interpolate s (keep s xs))).2)
+    cases interpolate s (keep s xs) <;> rfl
+  | modes lo hi =>
+    cases ht : s.hasTable with
+    | false =>
+      simp only [step]
+      rw [if_neg (show ¬ (setK k s).hasTable = true by rw [show (setK k s).hasTable = s.hasTable from rfl, ht]; decide),
+          if_neg (by rw [ht]; decide)]
+      rfl
+    | true =>
+      simp only [step]
+      rw [if_pos (show (setK k s).hasTable = true from ht), if_pos ht]
+      show ofInterp (setK k { s with lo := lo, hi := hi })
+          (interpolate (setK k { s with lo := lo, hi := hi }) s.pts) = _
+      rw [interpolate_setK]
+      cases interpolate { s with lo := lo, hi := hi } s.pts <;> rfl
+  | setAdaptive b => cases b <;> rfl
+  | eval u xs =>
+    simp only [step, evalRun_setK]
+    cases (evalRun s u xs).err <;> rfl
+  | deriv u order xd => exact derivRun_setK k s u order xd
+  | extend a b p q =>
+    simp only [step]
+    rw [extendTable_setK]
+    generalize extendTable s a b p q = r
+    rcases r with ⟨s1, _ | e⟩ <;> rfl
+  | reread =>
+    cases ht : s.hasTable with
+    | false =>
+      simp only [step]
+      rw [if_pos (show (setK k s).hasTable = false from ht), if_pos ht]
+    | true =>
+      simp only [step]
+      rw [if_neg (show ¬ (setK k s).hasTable = false by rw [show (setK k s).hasTable = s.hasTable from rfl, ht]; decide),
+          if_neg (by rw [ht]; decide)]
+      show ofInterp (setK k s) (interpolate (setK k s) s.pts) = _
+      rw [interpolate_setK]
+      cases interpolate s s.pts <;> rfl
+  | get => rfl
+
 end Lemmas.Interp
